@@ -5,5 +5,7 @@ CONSTANTS
   WithEmpty = TRUE
   MaxPathLen = 4
   ModelKinds = {"timeout"}
+  ChainLen = 3
+  Changes = {}
 INVARIANTS Emit
 CHECK_DEADLOCK FALSE
